@@ -11,6 +11,7 @@ BASE_STUBS_EXT = [
 BASE_STUBS_CANDID = [
     "crate::types::type_env::TypeEnv::trace_type_with_depth",
     "binread::binary_template::write_start_struct",
+    "<crate::Error as std::convert::From<std::io::Error>>::from",
     "alloc::fmt::format",
     "crate::Error::msg",
     "stacker::remaining_stack",
@@ -39,6 +40,14 @@ class H:
     def required_stubs(self):
         base = {"ext": BASE_STUBS_EXT, "candid": BASE_STUBS_CANDID, "parser": BASE_STUBS_PARSER}[self.loc]
         return base + self.extra_stubs
+
+    @property
+    def full_name(self):
+        if self.loc == "ext":
+            return f"{self.module}::{self.name}"
+        if self.loc == "candid":
+            return f"de::verif_kani::{self.module}::{self.name}"
+        return f"random::verif_kani::{self.module}::{self.name}" if self.module else f"random::verif_kani::{self.name}"
 
     @property
     def playback_prelude(self):
@@ -114,6 +123,33 @@ add(["C08", "C06", "C07"], "c08_text_string_le4", "candid", "de_prim",
     "symbolic length 0..=4 bytes x 17 wire prims x symbolic quotas", TEXT_WHAT + " (String, owned)", est_s=120)
 add(["C08", "C06", "C07"], "c08_unit", "candid", "de_prim", "0..=2 bytes x 17 wire prims x symbolic quotas",
     "() target: Ok => wire null, nothing consumed, cost >= 1 (zero-sized values are not free)", est_s=40)
+
+MEMCMP = ["--unwindset", "memcmp.0:40"]
+PRIMS = ["null", "bool", "nat", "int", "nat8", "nat16", "nat32", "nat64", "int8", "int16", "int32", "int64", "f32", "f64",
+         "text", "reserved", "empty"]
+OPT_WHAT = ("Option<T>::deserialize vs the spec's opt coercion (reference decoder in the harness): null/reserved -> None; "
+            "opt W' flag 0 -> None; flag 1 or plain W: value read, Some(v) iff W <: T else None (value skipped through "
+            "deserialize_ignored_any/deserialize_any); malformed bytes or bad flag -> Err even below opt; exact bytes "
+            "consumed; skipped data charged to the skipping quota; option never free; no panic; cursor <= len")
+QUICK_OPT = {"c08_opt_u8_w_nat8", "c08_opt_u8_w_bool", "c08_opt_u8_wo_bool", "c08_opt_u8_wo_nat8", "c08_opt_u8_wo_text",
+             "c08_opt_u8_w_reserved", "c08_opt_bool_wo_bool", "c08_opt_u8_wo_int"}
+for under, tag in ((False, "w"), (True, "wo")):
+    for p in PRIMS:
+        n = f"c08_opt_u8_{tag}_{p}"
+        bn = p in ("nat", "int")
+        add(["C08", "C06", "C07"], n, "candid", "de_opt",
+            f"expected opt nat8, wire {'opt ' if under else ''}{p} (concrete, pooled); all value buffers of the fixed length "
+            f"chosen for that wire type; symbolic decoding+skipping quotas and error verbosity", OPT_WHAT,
+            quick=n in QUICK_OPT, est_s=200 if p in ("text", "nat", "int") else 60, cbmc_args=MEMCMP,
+            stubs=["num_bigint::BigUint::from_radix_le"] if bn else [])
+for n, d in (("c08_opt_u8_wo_text_n2", "expected opt nat8, wire opt text, 2 value bytes (truncated text below opt)"),
+             ("c08_opt_bool_wo_bool", "expected opt bool, wire opt bool, 3 bytes (0x02 payload below opt is an error)"),
+             ("c08_opt_bool_wo_nat8", "expected opt bool, wire opt nat8, 3 bytes"),
+             ("c08_opt_bool_wo_text", "expected opt bool, wire opt text, 4 bytes"),
+             ("c08_opt_bool_w_bool", "expected opt bool, wire bool, 2 bytes"),
+             ("c08_opt_bool_w_nat8", "expected opt bool, wire nat8, 2 bytes")):
+    add(["C08", "C06", "C07"], n, "candid", "de_opt", d + "; symbolic quotas", OPT_WHAT, quick=n in QUICK_OPT, est_s=90,
+        cbmc_args=MEMCMP)
 
 OUTSIDE = {
     "C09": "LEB strings longer than the per-harness byte bound; num-bigint's own arithmetic (boundary stubbed in the "
